@@ -18,7 +18,7 @@ func init() {
 		Patterns: []string{"./ring", "./ring/shard"},
 		Run:      runC12,
 		Explanation: "Decides structural necessary conditions of 'shuffle shards are deterministic; read-only instances excluded; look-back is a superset': (R1) effect analysis of the shard cone (Ring.shuffleShard, filterOutReadOnlyInstances, buildRingForTheShard, PartitionRing.shuffleShard, constructors, the seed function): the only random source is rand.New(rand.NewSource(ShuffleShardSeed(identifier, zone))), no clock/env/goroutine/package state, zones iterated from a slice, every map iteration is order-insensitive by a syntactic recogniser (stores keyed by the loop key, counters, min/max, sorted-afterwards appends) or listed with a reason; " +
-			"(R2) without look-back the result does not depend on the clock: every use of the look-back threshold (inside && / || operands too) is evaluated only when lookbackPeriod > 0; (R3) an instance enters the shard only if shouldIncludeReadonlyInstanceInTheShard holds for it, and that predicate equals 'not read-only ∨ (period ≠ 0 ∧ ¬(period>0 ∧ ts>0 ∧ ts<threshold))' on all rows; (R4) the partition variant uses the same seed function with zone \"\"; (R5) an out-of-range size is replaced by the number of all partitions. NOT decided: shard size and zone balance, monotonicity in size, ±1 stability, the look-back superset itself (depend on the walk over runtime token positions).",
+			"(R2) without look-back the result does not depend on the clock: every use of the look-back threshold (inside && / || operands too) is evaluated only when lookbackPeriod > 0; (R3) an instance enters the shard only if shouldIncludeReadonlyInstanceInTheShard holds for it, and that predicate equals 'not read-only ∨ (period ≠ 0 ∧ ¬(period>0 ∧ ts>0 ∧ ts<threshold))' on all rows; (R4) the partition variant uses the same seed function with zone \"\"; (R5) an out-of-range size is replaced by the number of all partitions. (R6) the public wrappers skip the walk only for size ≤ 0 and pass identifier and size on unchanged; (R7) a computed shard is cached only if the ring topology stamp is unchanged (shared with C13.R3). NOT decided: shard size and zone balance, monotonicity in size, ±1 stability, the look-back superset itself (depend on the walk over runtime token positions).",
 	}
 }
 
@@ -162,15 +162,15 @@ func orderInsensitiveBody(fn *an.Fn, rs *ast.RangeStmt) (bool, string) {
 
 // frozen table of map iterations in the shard cone that the recogniser cannot classify, one reason each.
 var c12MapRangeTable = map[string]string{
-	"(*Desc).getTokensByZone":                        "per-zone token lists are merged and sorted by MergeTokens before use",
-	"(*Desc).getTokensInfo":                          "store keyed by token: tokens are unique per C05/C16, so no colliding keys",
-	"(*PartitionRingDesc).partitionByToken":          "store keyed by token: partition tokens are unique (C16)",
-	"(*PartitionRingDesc).ownersByPartition":         "per-partition owner lists are sorted after the loop",
-	"(*PartitionRingDesc).tokens":                    "all tokens are collected and sorted afterwards",
-	"mergeTokenGroups":                               "k-way merge: the groups' relative order does not change the sorted output",
-	"(*PartitionRingDesc).WithPartitions":            "copies entries keyed by id / owner id",
-	"(*PartitionRingDesc).activePartitionsCount":     "counter",
-	"(*PartitionRingDesc).maxPartitionID":            "max accumulation",
+	"(*Desc).getTokensByZone":                    "per-zone token lists are merged and sorted by MergeTokens before use",
+	"(*Desc).getTokensInfo":                      "store keyed by token: tokens are unique per C05/C16, so no colliding keys",
+	"(*PartitionRingDesc).partitionByToken":      "store keyed by token: partition tokens are unique (C16)",
+	"(*PartitionRingDesc).ownersByPartition":     "per-partition owner lists are sorted after the loop",
+	"(*PartitionRingDesc).tokens":                "all tokens are collected and sorted afterwards",
+	"mergeTokenGroups":                           "k-way merge: the groups' relative order does not change the sorted output",
+	"(*PartitionRingDesc).WithPartitions":        "copies entries keyed by id / owner id",
+	"(*PartitionRingDesc).activePartitionsCount": "counter",
+	"(*PartitionRingDesc).maxPartitionID":        "max accumulation",
 }
 
 func runC12(c *core.Ctx) {
@@ -535,7 +535,7 @@ func c12ReadOnly(c *core.Ctx, pkg *packages.Package) {
 				from, opts = an.Loc{B: b, I: 0}, an.ExecOpts{Header: h}
 			}
 			t := an.Table{G: fg, From: from, Opts: opts, MayOnly: true, Atoms: []an.Atom{{Name: "incl", Values: []string{"T", "F"}}},
-				Binder: &an.Binder{Fn: f, Re: []an.ReRole{an.RE(`^shouldIncludeReadonlyInstanceInTheShard\(`+regexpQuote(val)+`, .*\)$`, "INCL")}, Bool: map[string]string{"INCL": "incl"}},
+				Binder:  &an.Binder{Fn: f, Re: []an.ReRole{an.RE(`^shouldIncludeReadonlyInstanceInTheShard\(`+regexpQuote(val)+`, .*\)$`, "INCL")}, Bool: map[string]string{"INCL": "incl"}},
 				Targets: []an.Loc{fg.Locate(as)}, Want: func(r an.Row, _ int) an.Tri { return an.FromBool(r["incl"] == "T") }}
 			res := t.Run()
 			c.Check(res.OK(), "R3", fmt.Sprintf("store:func=%s#%d", name, n), as.Pos(), "instance "+val+" enters the shard only when the inclusion predicate holds for it: "+res.Summary(), res.Rows)
